@@ -140,3 +140,30 @@ pub fn steps(update: &ChannelMonitorUpdate) -> Vec<StepView> {
 		})
 		.collect()
 }
+
+/// A peer that knows a payment preimage hands it straight to the [`ChannelMonitor`] of a channel
+/// that is being resolved on chain (what a next hop which is not this library's `ChannelManager`
+/// may do with an HTLC that is an output of the confirmed commitment): the monitor claims the HTLC
+/// outputs it can with it.
+///
+/// [`ChannelMonitor`]: crate::chain::channelmonitor::ChannelMonitor
+pub fn provide_preimage<Signer, B, F, L>(
+	monitor: &crate::chain::channelmonitor::ChannelMonitor<Signer>,
+	payment_hash: &crate::types::payment::PaymentHash,
+	payment_preimage: &crate::types::payment::PaymentPreimage, broadcaster: &B, fee_estimator: F,
+	logger: &L,
+) where
+	Signer: crate::sign::ecdsa::EcdsaChannelSigner,
+	B: crate::chain::chaininterface::BroadcasterInterface,
+	F: crate::chain::chaininterface::FeeEstimator,
+	L: crate::util::logger::Logger,
+{
+	let fee_estimator = crate::chain::chaininterface::LowerBoundedFeeEstimator::new(fee_estimator);
+	monitor.provide_payment_preimage_unsafe_legacy(
+		payment_hash,
+		payment_preimage,
+		broadcaster,
+		&fee_estimator,
+		logger,
+	);
+}
